@@ -474,6 +474,7 @@ var corpus = []string{
 	"IDLE", "CLOSE", "UNSELECT", "EXPUNGE", "UID EXPUNGE 1:*", "UNAUTHENTICATE",
 	"SEARCH RETURN (MIN MAX COUNT ALL SAVE) CHARSET UTF-8 OR (FROM a TO b) NOT (SINCE 1-Jan-2020 SMALLER 100) UID 1:* 2,4:7 HEADER X-A {1+}\r\nv KEYWORD k $",
 	"UID SEARCH ALL", "FETCH 1:* (FLAGS UID ENVELOPE BODYSTRUCTURE BODY INTERNALDATE RFC822.SIZE BODY.PEEK[1.2.HEADER.FIELDS (A B)]<0.10> BINARY.PEEK[1]<5.5> BINARY.SIZE[2] RFC822 RFC822.HEADER RFC822.TEXT BODY[TEXT] BODY[1.MIME])",
+	"LOGIN ", "SELECT ", "ENABLE ", "LIST \"\" * ", "STATUS INBOX ", "AUTHENTICATE PLAIN ", "NOOP ", "FETCH 1 ", "STORE 1 ", "SEARCH ", "UID ", "APPEND INBOX ", "CREATE ", "IDLE ",
 	"FETCH 1 FULL", "UID FETCH $ FAST", "STORE 1 +FLAGS.SILENT (\\Seen $x)", "UID STORE 1:3 -FLAGS \\Deleted \\Seen", "STORE 2 FLAGS ()", "COPY 1:2 dest", "UID COPY * \"de st\"", "MOVE 1 dest", "UID MOVE 1:* dest", "LOGOUT",
 }
 
@@ -570,6 +571,11 @@ func (e *env) hostile(class, state string, lines []string, descShort string) {
 		if cond == "timeout" {
 			e.leak(sig, descShort, "server made no progress on hostile input (spinning or stuck)")
 			return
+		}
+		if strings.HasPrefix(class, "literal-cap") && cond == "parked" && !bytes.Contains(out, []byte(fmt.Sprintf("x%d ", i))) && strings.HasSuffix(ln, "}") {
+			// only the header of an over-the-cap literal was sent: a server that says nothing and waits
+			// is about to read (buffer or discard) octets it must refuse up front
+			w.Violation("oversized-literal-awaited@"+strings.Fields(ln + " ?")[0], fmt.Sprintf("%s [state %s]: after the header of an over-the-cap literal the server sent nothing and waits for the payload (%q)", descShort, state, out), map[string]interface{}{"line": hx.Hex([]byte(ln), 200)})
 		}
 		if strings.HasPrefix(class, "literal-cap") {
 			// every literal announced in these probes is over the cap for its position: a
@@ -803,6 +809,21 @@ func body(w *hx.W) {
 		w.Class("hostile/mutated/" + st)
 		if i == 0 {
 			w.Sample(map[string]interface{}{"kind": "mutated commands", "state": st, "lines": lines})
+		}
+	}
+	// every corpus line as it is, with a trailing space, and with a doubled separator, in every state
+	ci := 0
+	for _, ln := range corpus {
+		for vi, variant := range []string{ln, ln + " ", strings.Replace(ln, " ", "  ", 1), " " + ln, ln + "\t"} {
+			for _, st := range states {
+				ci++
+				if !w.Mine(ci) {
+					continue
+				}
+				e.hostile(fmt.Sprintf("corpus-variant%d", vi), st, []string{variant}, hx.Hex([]byte(variant), 120))
+				w.CaseStr(fmt.Sprintf("corpus|%d|%s|%s", vi, st, variant))
+				w.Class(fmt.Sprintf("hostile/corpus-variant%d/%s", vi, st))
+			}
 		}
 	}
 	for i := 0; i < w.Pick(300, 5000); i++ {
